@@ -277,6 +277,8 @@ pub struct Env {
     pub forms_oracle: bool,
     /// the run judges ==/cmp against exact values (C05)
     pub cmp_oracle: bool,
+    /// the run judges rational values and canonical form (C04)
+    pub ratio_oracle: bool,
 }
 
 impl Env {
@@ -294,6 +296,7 @@ impl Env {
             soft: None,
             forms_oracle: false,
             cmp_oracle: false,
+            ratio_oracle: false,
         }
     }
     pub fn reset(&mut self) {
@@ -596,6 +599,7 @@ pub fn exec(w: &mut World, op: &Op, env: &mut Env) {
         "fd" => crate::exec_float::exec_fd(w, op, rest, env),
         "med" => crate::exec_medium::exec_med(w, op, rest, env),
         "xc" => crate::exec_cross::exec_xc(w, op, rest, env),
+        "rbig" => crate::exec_ratio::exec_rbig(w, op, rest, env),
         "r" => crate::exec_ratio::exec_r(w, op, rest, env),
         "x" => crate::exec_ratio::exec_x(w, op, rest, env),
         "nop" => {}
